@@ -211,12 +211,24 @@ struct Pool {
         if (ws[w].confirm) {
           // the isolated re-run did not crash: not confirmed; continue after it
           on_crash(ws[w].start_item, ws[w].start_sub, 0, false);
-          ws[w].pid = spawn(w, ws[w].start_item, ws[w].start_sub + 1, false); ws[w].confirm = false; ++live;
+          ws[w].start_sub += 1; ws[w].pid = spawn(w, ws[w].start_item, ws[w].start_sub, false); ws[w].confirm = false; ++live;
         }
         continue;
       }
       int sig = WIFSIGNALED(st) ? WTERMSIG(st) : 1000 + WEXITSTATUS(st);
       long long item = shared()->prog_item[w], sub = shared()->prog_sub[w];
+      {
+        // A crash before the first step() of an item (or before the first step after a restart)
+        // happened in the item's preamble: no sub-step can be skipped, so the whole item is
+        // skipped.  on_crash(item, -1, sig, true) is called once.
+        long long first_sub = (item == ws[w].start_item && !ws[w].confirm) ? ws[w].start_sub : 0;
+        if (!ws[w].confirm && !shared()->in_ref[w] && sub < first_sub) {
+          on_crash(item, -1, sig, true);
+          count(CNT_SKIPPED);
+          if (item + jobs < N) { ws[w].pid = spawn(w, item + jobs, 0, false); ws[w].start_item = item + jobs; ws[w].start_sub = 0; ++live; }
+          continue;
+        }
+      }
       if (sub < 0) sub = 0;
       if (shared()->in_ref[w]) {
         // the oracle itself ran out of time/memory on this case: not a verdict on the code under
@@ -236,7 +248,8 @@ struct Pool {
       } else {
         on_crash(item, ws[w].start_sub, sig, true);
         ws[w].confirm = false;
-        ws[w].pid = spawn(w, ws[w].start_item, ws[w].start_sub + 1, false); ++live;
+        ws[w].start_sub += 1;
+        ws[w].pid = spawn(w, ws[w].start_item, ws[w].start_sub, false); ++live;
       }
     }
   }
